@@ -3,10 +3,12 @@
 Generated multi-agent problems (2 agents; environment, public and private agent fluents, some
 declared under the same name by both agents; actions with conditional effects and disjunctive
 preconditions reading own, environment and other agents' (Dot) fluents; Dot goals, possibly
-disjunctive) are built through the public API, compiled by the REAL MAConditionalEffectsRemover /
+disjunctive; plus a "sibling" corpus in which the agents own same-named near-copies of each other's
+actions, see MAGen.problem) are built through the public API, compiled by the REAL MAConditionalEffectsRemover /
 MADisjunctiveConditionsRemover, and both problems are projected (structure only) to the
 multi-agent abstract model MA-UPJ; the map-back table comes from the real
-map_back_action_instance called on every ground action of the compiled problem, the initial
+map_back_action_instance called on every ground action of the compiled problem (recorded: the agent and
+name of the returned instance AND the whole definition of the returned action object), the initial
 states from the real MultiAgentProblem.initial_value.
 
 spec/MASem.tla owns the semantics: it resolves names (the multi-agent scoping rule), flattens
@@ -962,9 +964,10 @@ def run(ctx):
     nsame = {c: {"different": sum(1 for r in judged if r["comp"] == c and samename(r, False)),
                  "equal": sum(1 for r in judged if r["comp"] == c and samename(r, True))} for c in COMPILERS}
     ctx.cov["same_named_actions_in_two_agents"] = nsame
-    ctx.cov["sibling_corpus"] = sum(1 for r in judged if r["cid"] in sib_ids)
-    if min(v["different"] for v in nsame.values()) == 0:
-        raise MachineryError("vacuous corpus: no two agents with same-named, differently defined actions: %r" % nsame)
+    nsib_j = {c: sum(1 for r in judged if r["comp"] == c and r["cid"] in sib_ids and samename(r, False)) for c in COMPILERS}
+    ctx.cov["sibling_corpus"] = {"judged": sum(1 for r in judged if r["cid"] in sib_ids), "same_name_different_definition": nsib_j}
+    if nsib and min(nsib_j.values()) == 0:
+        raise MachineryError("vacuous sibling corpus: no two agents with same-named, differently defined actions: %r" % nsib_j)
     # vacuity: the run must contain split actions for both removers and the fake-goal mechanism
     if min(nsplit.values()) == 0 or naux == 0:
         raise MachineryError("vacuous corpus: split actions per compiler %r, compilations with auxiliary fluents %d" % (nsplit, naux))
